@@ -62,7 +62,7 @@ PROPS = {
         "2 Coq theorems (Props/Properties_C01.v; Proofs/SolverSound1/2/.v ~1900 lines + SolverQueue/2.v): for every lawful VersionSet, every registry with well-formed dependency sets, every provider trace that agrees with the registry (any prioritisation, any choice of offered versions, any iteration order of dependency maps) and every fuel: if the model of resolve returns Ok(sol) then sol contains the root at the requested version, selects only versions the provider has and whose dependencies are available, satisfies every dependency of every selected version (a dependency on the own package counts like any other), and selects no package twice. Invariant: every dependency incompatibility of which a DECIDED package is the dependant is contradicted by the partial solution restricted to that package's decision level (established by the scan after the decision, stable under derivations and under every backtrack that keeps the decision); cache soundness; every (p,v) whose dependencies were fetched is covered by an active incompatibility (also after merging); an empty queue means no undecided positive package (C14 theorem). Oracle: every Ok result over the solver case stream is checked against the registry, and the Coq model must reproduce the run. Finding F1 (self-dependency) was found by this check and repaired in /repo."),
     "C02": solver_prop("Props/Properties_C02.v", "proof",
         "Coq proof (store validity invariant + terminal test) for any lawful VersionSet, registry, well-behaved trace and fuel; correspondence + brute-force solution search as oracle",
-        "3 Coq theorems: if the model of resolve returns NoSolution on a provider trace that agrees with the registry, no set of package versions containing the root satisfies all dependencies (for every lawful VersionSet, registry, strategy/trace, fuel); follows from the proved invariant that every stored incompatibility is valid and the terminal test. Tie: full-trace correspondence of the model with the Rust resolve; oracle: complete brute-force search for a solution on every NoSolution result."),
+        "4 Coq theorems (the 4th is the converse, from termination and panic-freedom: on a finite registry, if a solution exists a complete run returns Ok): if the model of resolve returns NoSolution on a provider trace that agrees with the registry, no set of package versions containing the root satisfies all dependencies (for every lawful VersionSet, registry, strategy/trace, fuel); follows from the proved invariant that every stored incompatibility is valid and the terminal test. Tie: full-trace correspondence of the model with the Rust resolve; oracle: complete brute-force search for a solution on every NoSolution result."),
     "C03": solver_prop("Props/Properties_C03.v", "proof",
         "Coq proof that the tree built from the store has true leaves, derived nodes entailed by their causes for every assignment, a top node forbidding the root, and shared ids exactly on the derived nodes with in-degree >= 2 (all occurrences of one id the same subtree); tree correspondence + independent proof-checking oracle",
         "7 Coq theorems: for every lawful VersionSet, registry, well-behaved trace and fuel, the derivation tree of a NoSolution outcome of the model satisfies tree_ok (every external leaf true of the provider: root requirement, dependency declared with exactly that set by every existing version in the stated set, no provider version in a NoVersions set, unavailable dependencies for Custom; every derived node's terms entailed by its two causes for EVERY assignment) and its top node forbids the root at the requested version. Shared ids (nosolution_tree_sharing, Proofs/SolverShared.v): the tree is tree_of of the store for a shared list that contains exactly the derived ids with in-degree >= 2 in the cause DAG reachable from the top id (= two different incoming edges; 'reachable along more than one path' is read as this in-degree, the top counting one edge from outside), a derived node built for id j carries Some j exactly when j is in the list, all occurrences of one id are the same subtree, and build_derivation_tree never fails on a run's store (the fuel of the model's DFS suffices). The Rust tree (structure, terms, shared ids) must equal the model's tree on every NoSolution case. Oracle: independent node-by-node proof checker on every NoSolution tree."),
